@@ -271,6 +271,9 @@ func (e *Engine) verifyFunction(key string) (u *Unit, err error) {
 	if ct != nil && ct.NoSafety {
 		u.safety = false
 	}
+	if ct != nil && ct.Wrap {
+		u.nowrap = false
+	}
 	fr := u.newFrame(fn, ct, nil)
 	fr.top = true
 	h := Heap{}
@@ -353,7 +356,7 @@ func (e *Engine) verifyFunction(key string) (u *Unit, err error) {
 			u.assumed["lemma instance used: "+us.Text] = true
 		}
 	}
-	if ct != nil && ct.FnSplit != nil {
+	if ct != nil && ct.FnSplit != nil && u.active(ct.FnSplit.Props) {
 		v := env.eval(ct.FnSplit.Expr)
 		t := u.define("split", v.S, v.T)
 		u.splits = append(u.splits, splitInfo{term: t, sort: v.S, lo: ct.FnSplitLo, hi: ct.FnSplitHi, from: len(u.obls), reach: "true", text: ct.FnSplit.Text})
